@@ -281,13 +281,39 @@ _PRINT = re.compile(r"^<<(.*)>>$")
 
 
 def parse_printt(out: str, tag: str) -> list[list]:
-    """Extract `<<"TAG", ...>>` tuples printed with PrintT (single-line ones)."""
+    """Extract `<<"TAG", ...>>` tuples printed with PrintT (TLC pretty-prints long values over
+    several lines, so values are found by bracket matching, not line by line)."""
     rows = []
-    for line in out.splitlines():
-        line = line.strip()
-        if not line.startswith(f'<<"{tag}"'):
-            continue
-        rows.append(parse_tla_value(line))
+    pat = re.compile(r'<<\s*"' + re.escape(tag) + r'"')
+    pos = 0
+    while True:
+        m = pat.search(out, pos)
+        if not m:
+            break
+        i = m.start()
+        depth = 0
+        j = i
+        instr = False
+        while j < len(out):
+            ch = out[j]
+            if instr:
+                if ch == "\\":
+                    j += 1
+                elif ch == '"':
+                    instr = False
+            elif ch == '"':
+                instr = True
+            elif out.startswith("<<", j):
+                depth += 1
+                j += 1
+            elif out.startswith(">>", j):
+                depth -= 1
+                j += 1
+                if depth == 0:
+                    break
+            j += 1
+        rows.append(parse_tla_value(out[i:j + 1]))
+        pos = j + 1
     return rows
 
 
